@@ -309,6 +309,15 @@ def header(ctx):
     buf_names = {x.id for x in ast.walk(fl.iter) if isinstance(x, ast.Name)}
     for c in reads_:
         st = astq.enclosing_stmt(pm, c)
+        # the reads also position the stream at the first sample: whether one happens may depend on sizes, never on what the bytes say
+        for a in astq.ancestors(pm, c):
+            if isinstance(a, (ast.If, ast.IfExp, ast.While)) and not any(y is c for y in ast.walk(a.test)):
+                content = [x for x in ast.walk(a.test) if (isinstance(x, ast.Compare) and any(isinstance(o, (ast.In, ast.NotIn)) for o in x.ops))
+                           or (isinstance(x, ast.Call) and isinstance(x.func, ast.Attribute) and x.func.attr in ("find", "rfind", "index", "startswith", "endswith", "count", "search", "match"))]
+                if content and any(isinstance(y, ast.Name) and y.id in buf_names for y in ast.walk(a.test)):
+                    ctx.bad(R, f, a, "whether `%s` is executed depends on the bytes already read (`%s`): when it is skipped the stream is left inside the header "
+                            "block and the rest of the header is decoded as samples" % (astq.text(c)[:50], astq.text(a.test)[:50]),
+                            "the whole header block is consumed before the samples are read, whatever it contains", robust=True)
         if isinstance(st, ast.Expr):
             ctx.bad(R, f, st, "header bytes are read from the stream and discarded; fields (or end_head) located past the "
                     "first 1024 bytes of a larger header are never seen by the field parser",
@@ -484,6 +493,33 @@ def _expansion_by_value(ctx, R, f, ev, loop):
                 if nm.startswith(("numpy.", "np.")) and nm.split(".", 1)[1] in SIZES:
                     return S.sym("dt:" + nm.split(".", 1)[1])
                 return None
+            if SC.is_call(x, "np.promote_types", "numpy.promote_types", "np.result_type", "numpy.result_type") and len(x.args) == 3:
+                def dtn(y):
+                    if y == S.NONE:
+                        return "float64"    # numpy reads None as its default type
+                    if y.op == "sym" and y.args[0].startswith("dt:"):
+                        return y.args[0][3:]
+                    if y.op == "sym" and y.args[0].startswith(("numpy.", "np.")) and y.args[0].split(".", 1)[1] in SIZES:
+                        return y.args[0].split(".", 1)[1]
+                    return None
+                a_, b_ = dtn(x.args[1]), dtn(x.args[2])
+                if a_ and b_:
+                    # NumPy's promotion lattice on the types that occur here
+                    rank = {"uint8": ("u", 8), "int8": ("i", 8), "int16": ("i", 16), "int32": ("i", 32), "float32": ("f", 32), "float64": ("f", 64)}
+                    (ka, ba), (kb, bb) = rank[a_], rank[b_]
+                    if a_ == b_:
+                        r_ = a_
+                    elif "f" in (ka, kb):
+                        ib = max([b for k, b in ((ka, ba), (kb, bb)) if k != "f"] or [0])
+                        fb = max([b for k, b in ((ka, ba), (kb, bb)) if k == "f"])
+                        r_ = "float64" if (fb == 64 or ib >= 32) else "float32"
+                    elif ka == kb:
+                        r_ = a_ if ba >= bb else b_
+                    else:
+                        ub = ba if ka == "u" else bb
+                        sb = ba if ka == "i" else bb
+                        r_ = "int%d" % max(sb, 2 * ub)
+                    return S.sym("dt:" + r_)
             if SC.is_call(x, ".itemsize") and len(x.args) == 2 and x.args[1].op == "sym" and x.args[1].args[0].startswith("dt:"):
                 return S.lift(SIZES[x.args[1].args[0][3:]])
             if x.op == "cmp" and x.args[0] in ("==", "!=", "is", "is not"):
